@@ -21,6 +21,9 @@ func init() {
 			{"C08.prefix-agree", "prune removes abandoned temp files by the prefix StoreChunk uses, before the extension filter", 2, c08Prefix},
 			{"C08.extract", "temp-file extract: rename only after successful assembly; cancellation is never success", 5, c08Extract},
 			{"C08.in-place-by-flag-only", "the destination is assembled in place only when --in-place was given", 2, c08InPlaceByFlagOnly},
+			{"C08.flag-defaults", "extract goes through a temp file unless --in-place is given", 1, func(c *Ctx) {
+				c.flagDefaults(map[string]flagSpec{"in-place": {"false", "extractOptions.inPlace", 1}})
+			}},
 			{"C08.resume", "in-place re-run keeps only ranges that hash to their chunk id", 3, c01WriteChunk},
 		},
 	})
